@@ -812,6 +812,95 @@ def predicate(prog, sl, clv, applied, e, keep):
     return [Keep('pred', value=applied, origin=g.path)]
 
 
+def flag_conds(prog, sl, fn, cd, L, nxt, repl, keep):
+    """a tested boolean that is a local flag assigned constants under decisions inside the loop body
+    (`let wanted = matches!(kind(x), Some(A | B)); if wanted { push }`): the decisions under which the flag has the tested
+    value, as Keep conditions — the same table truth() gives for the boolean closure of a filter stage.  The flag must be
+    (re)assigned on every way from the top of the body to the test (no value of an earlier iteration), and not assigned
+    twice; total = every way to the test that does not pass one of the matching assignments takes a complementary edge
+    of one of their decisions.  None when the tested value is not of that shape."""
+    from .lib.value import subst
+    t = fn.blocks[cd.sw_bb]['t']
+    pl = op_place(t['o'])
+    if t['t'] != 'switch' or not pl or pl[1:]:
+        return None
+    listed = [v for v, _ in t['targets']]
+    want = None
+    for v, tb in t['targets']:
+        if tb == cd.target and tb != t['else']:
+            want = bool(v)
+    if want is None and cd.target == t['else'] and len(listed) == 1 and listed[0] in (0, 1):
+        want = not bool(listed[0])
+    if want is None:
+        return None
+    local = pl[0]
+    for _ in range(6):
+        defs = fn.whole_defs(local)
+        if len(defs) == 1 and defs[0][0] == 'stmt' and defs[0][3]['r'] in ('use', 'un') and (defs[0][3]['r'] == 'use' or defs[0][3].get('op') == 'Not'):
+            src = op_place(defs[0][3]['o'])
+            if src and not src[1:] and defs[0][1] in L.body:
+                want = want if defs[0][3]['r'] == 'use' else not want
+                local = src[0]
+                continue
+        break
+    if fn.partial_defs(local):
+        return None
+    trues, blocks = [], set()
+    for d in defs:
+        if not (d[0] == 'stmt' and d[3]['r'] == 'use' and isinstance(d[3].get('o'), dict) and 'k' in d[3]['o']) or d[1] not in L.body:
+            return None
+        val = d[3]['o']['k'].get('v')
+        if not (isinstance(val, dict) and 'bool' in val):
+            return None
+        blocks.add(d[1])
+        if val['bool'] == want:
+            trues.append(d)
+    if not trues or len(blocks) != len(defs):
+        return None
+    entries = [s for s in fn.succs(nxt) if s in L.body] if nxt is not None else []
+    if not entries:
+        return None
+    # assigned exactly once on every way from the top of the body to the test
+    if any(_reaches_end_avoiding(fn, s, blocks, {cd.sw_bb}, set()) for s in entries):
+        return None
+    for bb in blocks:
+        if any(_reaches_end_avoiding(fn, s, {cd.sw_bb, L.header}, blocks, set()) for s in fn.succs(bb)):
+            return None
+    dead = infeasible_edges(fn)
+    skip, out = set(dead), []
+    for d in trues:
+        ks = []
+        for c2 in conditions_x(fn, d[1], sl):
+            if c2.sw_bb not in L.body or c2.sw_bb == nxt:
+                continue
+            if c2.kind == 'variant' and c2.subject is not None:
+                ks.append(Keep('variant', c2.outcome, reduce(sl, subst(c2.subject, repl, sl), keep), c2.enum, origin=fn.path))
+            elif c2.kind == 'bool':
+                ks.append(Keep('bool', c2.outcome, value=subst(c2.value, repl, sl), origin=fn.path))
+            else:
+                ks.append(Keep('pred', value=subst(c2.value, repl, sl), origin=fn.path))
+            skip |= {(c2.sw_bb, x) for x in fn.succs(c2.sw_bb) if x != c2.target}
+        out.append(ks)
+    total = not any(_reaches_end_avoiding(fn, s, {d[1] for d in trues}, {cd.sw_bb}, skip) for s in entries)
+    if len(out) == 1:
+        for k in out[0]:
+            k.total = total
+        return out[0]
+    base = out[0]
+    if not all(len(ks) == len(base) for ks in out):
+        return None
+    merged, differing = [], 0
+    for i, k in enumerate(base):
+        col = [ks[i] for ks in out]
+        if not all(c.kind == 'variant' and k.kind == 'variant' and canon(c.subject) == canon(k.subject) for c in col):
+            return None
+        differing += len({c.outcome for c in col}) > 1
+        if differing > 1:
+            return None     # (alternatives that differ in more than one decision are not one product of decisions)
+        merged.append(Keep('variant', frozenset().union(*[c.outcome for c in col]), k.subject, k.enum, origin=fn.path, total=total))
+    return merged
+
+
 # ---- a local Vec filled in a loop ---------------------------------------------------------------------------------------
 def loop_build(prog, sl, E, fn, site, m, keep):
     """Build of the Vec created at `site` in fn (m: fn's parameters in entry terms)"""
@@ -863,6 +952,8 @@ def loop_build(prog, sl, E, fn, site, m, keep):
                     ks = t[0][0]
                     for k in ks:
                         k.total = t[0][1]
+            if ks is None:
+                ks = flag_conds(prog, sl, fn, cd, L, nxt, repl, keep)
             b.conds.extend(ks if ks is not None else [Keep('bool', cd.outcome, value=val, origin=fn.path)])
         else:
             b.conds.append(Keep('pred', value=subst(cd.value, repl, sl), origin=fn.path))
@@ -1170,6 +1261,30 @@ def natural_loops(E, f):
     return out
 
 
+def reopen(sl, it):
+    """an Iteration that C15_helpers.decompose leaves opaque only because of element-wise stages (map / inspect / cloned /
+    .. and collect round trips: one output element per input element, in order, none dropped): its selection *can* be
+    stated — every element of the base collection, the element value being the stages applied to it"""
+    if not it.opaque or it.recv is None:
+        return
+    v = it.recv
+    for _ in range(24):
+        v = peel(v)
+        if v[0] != 'call' or not v[2]:
+            break
+        name = v[1]
+        if name in ORDERED or name in iters.COLLECTING or name in iters.SAME or name in OK_PRESERVING or \
+                (iters._is_source(name) and name.endswith(iters.SAME_ELEMS) and len(v[2]) == 1):
+            v = v[2][0]
+        else:
+            break
+    if v[0] == 'call' and v[1].startswith(('std::iter::', 'core::iter::')):
+        return      # another adapter (filter, take, zip, chain, ..): stays as decompose left it
+    al = iters.alts(sl, it.recv)
+    if len(al) == 1 and not al[0][2] and al[0][1] is not None and not it.preds:
+        it.base, it.elem, it.opaque = al[0][1], al[0][0], False
+
+
 def total_iterations(E, e, tolerate=None):
     """effect e runs for *every* combination of elements of the (possibly nested) iterations around it, on every run that
     does not fail: (verdict 'ok'|'violated'|'unproven'|'none', reason, [Iteration] outermost first).  Generalises
@@ -1184,6 +1299,8 @@ def total_iterations(E, e, tolerate=None):
     its = sel.iterations
     if not its:
         return 'none', 'not inside an iteration', its
+    for it in its:
+        reopen(sl, it)
     for it in its:
         if it.recv is None:
             return 'unproven', 'a loop whose collection is not known', its
